@@ -55,6 +55,7 @@ Driver command `c12` (stateless, see `driverLine`):
            W:<rec>:<tablefile>:<page>  mmap store on behalf of record     (enact_plan / write_at)
            E:<rec>                     record completely applied          (Log::end_read)
            M:<tablefile>               msync of a table-ish file          (Column::flush)
+           X:<tablefile>               unlink of a table-ish file         (HashColumn::drop_index / drop_ref_count)
            T:<logfile>                 ftruncate to 0                     (Log::clean_logs)
            U:<logfile>                 unlink                             (Log::drop_log)
            R:<logfile>                 overwrite from the start without truncation (never
@@ -81,6 +82,7 @@ inductive Ev (V : Type) where
   | tableWrite (rec : Nat) (loc : Loc) (val : Cell V)
   | enactEnd (rec : Nat)
   | tableSync (tfile : Nat)
+  | tableDelete (tfile : Nat)
   | logTruncate (file : Nat)
   | logDelete (file : Nat)
   | logReuse (file : Nat)
@@ -156,6 +158,11 @@ def step (s : St V) : Ev V → St V
   | .tableSync t =>
     { s with dur := fun l => if l.file = t then s.vol l else s.dur l,
              dirty := s.dirty.filter (fun d => d.1 ≠ t) }
+  | .tableDelete t =>
+    -- unlink of a table-ish file (an old index dropped at the end of a growth): durable at once
+    -- (A-os); its locations exist no more, so volatile and durable view agree on them for ever
+    { s with dur := fun l => if l.file = t then s.vol l else s.dur l,
+             dirty := s.dirty.filter (fun d => d.1 ≠ t) }
   | .logTruncate f => dropLog s f
   | .logDelete f => dropLog s f
   | .logReuse f => dropLog s f
@@ -196,6 +203,7 @@ def check [DecidableEq V] (s : St V) : Ev V → Option Viol
     else if s.wr ≠ (recOf s.recs r).length then some .D3
     else none
   | .tableSync _ => none
+  | .tableDelete _ => none
   | .logTruncate f => checkDrop s f
   | .logDelete f => checkDrop s f
   | .logReuse f => checkDrop s f
@@ -345,7 +353,7 @@ def journalOf (kind : Loc → Kind) (as : List (Action Loc V)) : Journal V :=
 /-! ### driver -/
 
 inductive Tok where
-  | A (r f : Nat) | S (f : Nat) | W (r t p : Nat) | E (r : Nat) | M (t : Nat)
+  | A (r f : Nat) | S (f : Nat) | W (r t p : Nat) | E (r : Nat) | M (t : Nat) | X (t : Nat)
   | T (f : Nat) | U (f : Nat) | R (f : Nat)
 
 def parseTok (w : String) : Option Tok :=
@@ -355,6 +363,7 @@ def parseTok (w : String) : Option Tok :=
   | ["W", r, t, p] => do some (.W (← r.toNat?) (← t.toNat?) (← p.toNat?))
   | ["E", r] => do some (.E (← r.toNat?))
   | ["M", t] => do some (.M (← t.toNat?))
+  | ["X", t] => do some (.X (← t.toNat?))
   | ["T", f] => do some (.T (← f.toNat?))
   | ["U", f] => do some (.U (← f.toNat?))
   | ["R", f] => do some (.R (← f.toNat?))
@@ -370,6 +379,7 @@ def tokEv (toks : List Tok) : Tok → Ev Nat
   | .W r t p => .tableWrite r { file := t, page := p, off := 0 } (some (r, 1))
   | .E r => .enactEnd r
   | .M t => .tableSync t
+  | .X t => .tableDelete t
   | .T f => .logTruncate f
   | .U f => .logDelete f
   | .R f => .logReuse f
